@@ -93,8 +93,11 @@ def wrapper_table(model, config):
 # ---------------------------------------------------------------------------------------------
 
 def gen_plan(model, seed):
+    return gen_plan_types(hdrgen.object_types(model), seed)
+
+
+def gen_plan_types(types, seed):
     r = hdrgen.Rng(seed * 2654435761 + 99)
-    types = hdrgen.object_types(model)
     nobj = 1 + r.below(4)
     steps = []
     live = []
@@ -172,7 +175,7 @@ def gen_arg(r, ty):
 
 
 def gen_ret(r, ty):
-    if ty == "void" or ty.startswith("struct ") and ty != "struct ArgPair":
+    if ty == "void" or (ty.startswith("struct ") and ty != "struct ArgPair") or "Container<" in ty:
         return None
     return gen_arg(r, ty)
 
@@ -558,3 +561,273 @@ def run_driver(workdir, model, config, plan, header_path, tag="", sanitize=False
     elif v is not None and p.returncode < 0:
         v["msg"] += " (the program then died with signal %d)" % -p.returncode
     return {"violation": v, "log_lines": len(got), "slots": sum(1 for l in got if l.startswith("SLOT")), "log": p.stdout}
+
+
+# ---------------------------------------------------------------------------------------------
+# C++ mode: member-function wrappers of the specialised CGlueTraitObj / group templates
+# ---------------------------------------------------------------------------------------------
+
+def wrapper_table_cpp(model):
+    types = hdrgen.object_types_cpp(model)
+    out = []
+    for o in types:
+        names = {}
+        for v in o["vtbls"]:
+            for f in v["funcs"]:
+                clash = o["kind"] == "group" and any(f[0] == f2[0] for v2 in o["vtbls"] if v2 is not v for f2 in v2["funcs"])
+                names[(v["field"], f[0])] = (v["trait"].lower() + "_" + f[0]) if clash else f[0]
+        out.append({"names": names, "drop": None, "unnamed": []})
+    return types, out
+
+
+def cpp_value(ty, v, model):
+    ct = hdrgen.cpp_type(ty, model)
+    if ty == "bool":
+        return "(bool)%d" % v
+    if ty == "int32_t":
+        return "(int32_t)(%d)" % v
+    if ty in ("uint8_t", "uint64_t", "uintptr_t"):
+        return "(%s)%dull" % (ty, v)
+    if ty == "struct ArgPair":
+        return "ArgPair{ %duL, %dull }" % (v[0], v[1])
+    if ty == "struct CSliceRef_u8":
+        return "mk_slice(BUF + %d, %d)" % (v[0], v[1])
+    if ty == "const uint8_t *":
+        return "(const uint8_t *)(BUF + %d)" % v
+    if ty == "void *":
+        return "(void *)(BUF + %d)" % v
+    if ty.startswith("struct Callback_c_void__"):
+        return "mk_cb((void *)(BUF + %d), %s)" % (v[0], "cb_one" if v[1] else "cb_zero")
+    raise ValueError(ty)
+
+
+def gen_driver_cpp(model, plan, header_path):
+    m = hdrgen.cpp_model(model)
+    types, table = wrapper_table_cpp(model)
+    cb = m.get("callback_payload", "ArgPair")
+    cbty = "ArgPair" if cb == "ArgPair" else "uint64_t"
+    L = []
+    w = L.append
+    w('#include <cstdio>\n#include <cstring>\n#include <utility>\n#include "%s"\n' % header_path)
+    w("static uint8_t BUF[128];")
+    w("struct inst { uint64_t id; int drops; };")
+    w("static inst INST[%d];" % max(1, plan["insts"]))
+    w("static void inst_drop(void *p) { ((inst *)p)->drops++; }")
+    w("struct arcin { long count; uint64_t id; };")
+    w("static arcin ARCS[%d];" % max(1, plan["arcs"]))
+    w("static const void *arc_clone(const void *p) { ((arcin *)p)->count++; return p; }")
+    w("static void arc_drop(const void *p) { ((arcin *)p)->count--; }")
+    w("static bool cb_zero(void *c, %s v) { (void)c; (void)v; return 0; }" % cbty)
+    w("static bool cb_one(void *c, %s v) { (void)c; (void)v; return 1; }" % cbty)
+    w("static CSliceRef<uint8_t> mk_slice(const uint8_t *d, uintptr_t n) { CSliceRef<uint8_t> s; s.data = d; s.len = n; return s; }")
+    w("static OpaqueCallback<%s> mk_cb(void *c, bool (*f)(void *, %s)) { OpaqueCallback<%s> r; r.context = c; r.func = f; return r; }" % (cbty, cbty, cbty))
+    w("static const void *EXPECT_CONT;")
+    w("static void state(void) {\n    int i; printf(\"STATE arcs=\");\n    for (i = 0; i < %d; i++) printf(\"%%ld,\", ARCS[i].count);\n    printf(\" drops=\");\n    for (i = 0; i < %d; i++) printf(\"%%d,\", INST[i].drops);\n    printf(\"\\n\");\n}" % (plan["arcs"], plan["insts"]))
+    ret_types = sorted({f[3] for o in types for v in o["vtbls"] for f in v["funcs"] if f[3] != "void" and not (f[0] == "clone" and v["field"] == "vtbl_clone")})
+    rslot = {}
+    for i, rt in enumerate(ret_types):
+        ct = hdrgen.cpp_type(rt, m)
+        w("static %s%sRETV_%d;" % (ct, "" if ct.endswith("*") else " ", i))
+        rslot[rt] = "RETV_%d" % i
+    w("static uint64_t CLONE_INST;")
+
+    def pr(ty, expr):
+        return c_print(ty, expr).replace("(const uint8_t *)(%s).context" % expr, "(const uint8_t *)(%s).context" % expr)
+
+    for k, o in enumerate(types):
+        w("typedef %s Cont%d;" % (o["container"], k))
+        w("typedef %s Obj%d;" % (o["struct"], k))
+        inst_of_ptr = "((const inst *)cont->instance.instance)" if o["cont"] == "Box" else "((const inst *)cont->instance)"
+        inst_of_val = "((inst *)cont.instance.instance)" if o["cont"] == "Box" else "((inst *)cont.instance)"
+        for v in o["vtbls"]:
+            for f in v["funcs"]:
+                fname, kind, args, ret = f
+                is_clone = fname == "clone" and v["field"] == "vtbl_clone"
+                recv = {"ref": "const Cont%d *cont" % k, "mut": "Cont%d *cont" % k, "own": "Cont%d cont" % k}[kind]
+                ps = [recv]
+                for a in args:
+                    ct = hdrgen.cpp_type(a[0], m)
+                    ps.append("%s%s%s" % (ct, "" if ct.endswith("*") else " ", a[1]))
+                rt = ("Cont%d" % k) if is_clone else hdrgen.cpp_type(ret, m)
+                w("static %s%smock_%d_%s_%s(%s) {" % (rt, "" if rt.endswith("*") else " ", k, v["field"], fname, ", ".join(ps)))
+                if kind == "own":
+                    w('    printf("SLOT %d.%s.%s inst=%%llu byvalue", (unsigned long long)%s->id);' % (k, v["field"], fname, inst_of_val))
+                    w('    printf(" ctx=arc%llu", (unsigned long long)((const arcin *)cont.context.instance)->id);')
+                else:
+                    w('    printf("SLOT %d.%s.%s inst=%%llu same=%%d", (unsigned long long)%s->id, (const void *)cont == EXPECT_CONT);' % (k, v["field"], fname, inst_of_ptr))
+                    w('    printf(" ctx=arc%llu", (unsigned long long)((const arcin *)cont->context.instance)->id);')
+                w('    printf(" args=[");')
+                for a in args:
+                    w("    " + pr(a[0], a[1]) + ' printf(";");')
+                w('    printf("]\\n");')
+                if kind == "own":
+                    if o["cont"] == "Box":
+                        w("    if (cont.instance.drop_fn) cont.instance.drop_fn(cont.instance.instance);")
+                    w("    { arcin *a = (arcin *)cont.context.instance; cont.context.drop_fn(cont.context.instance);")
+                    w('      printf("LIBRARY arc%llu %s\\n", (unsigned long long)a->id, a->count > 0 ? "still-loaded" : "UNLOADED-INSIDE-CALL"); }')
+                if is_clone:
+                    w("    { Cont%d out = *cont;" % k)
+                    if o["cont"] == "Box":
+                        w("      out.instance.instance = &INST[CLONE_INST];")
+                    else:
+                        w("      out.instance = &INST[CLONE_INST];")
+                    w("      out.context.instance = cont->context.clone_fn(cont->context.instance);")
+                    w("      return out; }")
+                elif ret != "void":
+                    w("    return %s;" % rslot[ret])
+                w("}")
+            w("static const %s VT_%d_%s = { %s };" % (v["type"], k, v["field"], ", ".join("mock_%d_%s_%s" % (k, v["field"], f[0]) for f in v["funcs"])))
+    w("int main(void) {")
+    w("    int i; for (i = 0; i < 128; i++) BUF[i] = (uint8_t)i;")
+    w("    for (i = 0; i < %d; i++) INST[i].id = (uint64_t)i;" % max(1, plan["insts"]))
+    w("    for (i = 0; i < %d; i++) ARCS[i].id = (uint64_t)i;" % max(1, plan["arcs"]))
+    w("    setvbuf(stdout, NULL, _IONBF, 0);")
+    objtype = {}
+    for st in plan["steps"]:
+        if st["op"] == "create":
+            k = st["type"]
+            o = types[k]
+            on = st["obj"]
+            objtype[on] = k
+            w("    Obj%d *o%d = new Obj%d();" % (k, on, k))
+            for v in o["vtbls"]:
+                w("    o%d->%s = &VT_%d_%s;" % (on, v["field"], k, v["field"]))
+            if o["cont"] == "Box":
+                w("    o%d->container.instance.instance = &INST[%d]; o%d->container.instance.drop_fn = inst_drop;" % (on, st["inst"], on))
+            else:
+                w("    o%d->container.instance = &INST[%d];" % (on, st["inst"]))
+            w("    o%d->container.context.instance = &ARCS[%d]; o%d->container.context.clone_fn = arc_clone; o%d->container.context.drop_fn = arc_drop; ARCS[%d].count++;" % (on, st["ctx"], on, on, st["ctx"]))
+            w('    printf("CREATE o%d\\n"); state();' % on)
+        elif st["op"] == "drop":
+            w('    printf("DROP o%d\\n");' % st["obj"])
+            w("    delete o%d;" % st["obj"])
+            w("    state();")
+        else:
+            k = objtype[st["obj"]]
+            o = types[k]
+            v = [x for x in o["vtbls"] if x["field"] == st["field"]][0]
+            f = [x for x in v["funcs"] if x[0] == st["fname"]][0]
+            name = table[k]["names"][(st["field"], st["fname"])]
+            w('    printf("CALL o%d %s.%s\\n");' % (st["obj"], st["field"], st["fname"]))
+            argv = ", ".join(cpp_value(a[0], val, m) for a, val in zip(f[2], st["args"]))
+            target = ("std::move(*o%d)." % st["obj"]) if f[1] == "own" else ("o%d->" % st["obj"])
+            call = "%s%s(%s)" % (target, name, argv)
+            if "new_obj" in st:
+                w("    CLONE_INST = %d;" % st["new_inst"])
+                w("    EXPECT_CONT = &o%d->container;" % st["obj"])
+                w("    Obj%d *o%d = new Obj%d(%s);" % (k, st["new_obj"], k, call))
+                objtype[st["new_obj"]] = k
+                inst = "o%d->container.instance.instance" % st["new_obj"] if o["cont"] == "Box" else "o%d->container.instance" % st["new_obj"]
+                w('    printf("RET container inst=%%llu vtables=%%d\\n", (unsigned long long)((const inst *)%s)->id, %s);' % (inst, " && ".join("o%d->%s == o%d->%s" % (st["new_obj"], vv["field"], st["obj"], vv["field"]) for vv in o["vtbls"])))
+            else:
+                if f[3] != "void":
+                    w("    %s = %s;" % (rslot[f[3]], cpp_value(f[3], st["ret"], m)))
+                if f[1] != "own":
+                    w("    EXPECT_CONT = &o%d->container;" % st["obj"])
+                if f[3] == "void":
+                    w("    %s;" % call)
+                    w('    printf("RET void\\n");')
+                else:
+                    ct = hdrgen.cpp_type(f[3], m)
+                    w("    { %s%sr = %s; printf(\"RET \"); %s printf(\"\\n\"); }" % (ct, "" if ct.endswith("*") else " ", call, pr(f[3], "r")))
+                if f[1] == "own":
+                    w("    delete o%d;" % st["obj"])
+            w("    state();")
+    w("    return 0;\n}")
+    return "\n".join(L) + "\n"
+
+
+def expected_log_cpp(model, plan, known_ctx_leak=False):
+    """Reference model for the C++ program. With known_ctx_leak every consuming call on a
+    reference-counted context leaves one reference behind (the recorded finding)."""
+    types, table = wrapper_table_cpp(model)
+    m = hdrgen.cpp_model(model)
+    arcs = [0] * plan["arcs"]
+    drops = [0] * plan["insts"]
+    objs = {}
+    out = []
+
+    def state():
+        out.append("STATE arcs=%s drops=%s" % ("".join("%d," % c for c in arcs), "".join("%d," % d for d in drops)))
+
+    for st in plan["steps"]:
+        if st["op"] == "create":
+            objs[st["obj"]] = {"type": st["type"], "inst": st["inst"], "ctx": st["ctx"]}
+            arcs[st["ctx"]] += 1
+            out.append("CREATE o%d" % st["obj"])
+            state()
+        elif st["op"] == "drop":
+            ob = objs.pop(st["obj"])
+            o = types[ob["type"]]
+            out.append("DROP o%d" % st["obj"])
+            if o["cont"] == "Box":
+                drops[ob["inst"]] += 1
+            arcs[ob["ctx"]] -= 1
+            state()
+        else:
+            ob = objs[st["obj"]]
+            k = ob["type"]
+            o = types[k]
+            v = [x for x in o["vtbls"] if x["field"] == st["field"]][0]
+            f = [x for x in v["funcs"] if x[0] == st["fname"]][0]
+            out.append("CALL o%d %s.%s" % (st["obj"], st["field"], st["fname"]))
+            args = "".join(text_value(a[0], val) + ";" for a, val in zip(f[2], st["args"]))
+            if f[1] == "own":
+                out.append("SLOT %d.%s.%s inst=%d byvalue ctx=arc%d args=[%s]" % (k, st["field"], st["fname"], ob["inst"], ob["ctx"], args))
+                if o["cont"] == "Box":
+                    drops[ob["inst"]] += 1
+                arcs[ob["ctx"]] -= 1
+                if known_ctx_leak:
+                    arcs[ob["ctx"]] += 1
+                out.append("LIBRARY arc%d still-loaded" % ob["ctx"])
+                objs.pop(st["obj"])
+            else:
+                out.append("SLOT %d.%s.%s inst=%d same=1 ctx=arc%d args=[%s]" % (k, st["field"], st["fname"], ob["inst"], ob["ctx"], args))
+            if "new_obj" in st:
+                objs[st["new_obj"]] = {"type": k, "inst": st["new_inst"], "ctx": ob["ctx"]}
+                arcs[ob["ctx"]] += 1
+                out.append("RET container inst=%d vtables=1" % st["new_inst"])
+            elif f[3] == "void":
+                out.append("RET void")
+            else:
+                out.append("RET " + text_value(f[3], st["ret"]))
+            state()
+    return out
+
+
+CXXFLAGS = ["-std=c++11", "-O0", "-w"]
+
+
+def run_driver_cpp(workdir, model, plan, header_path, tag="", sanitize=False):
+    src = os.path.join(workdir, "driver%s.cpp" % tag)
+    exe = os.path.join(workdir, "driverpp%s" % tag)
+    with open(src, "w") as f:
+        f.write(gen_driver_cpp(model, plan, header_path))
+    cc = subprocess.run(["c++"] + CXXFLAGS + (SANITIZE if sanitize else []) + ["-o", exe, src], stdout=subprocess.PIPE, stderr=subprocess.STDOUT, text=True)
+    if cc.returncode != 0:
+        errs = [l for l in cc.stdout.splitlines() if "error" in l]
+        missing = [l for l in errs if "has no member named" in l]
+        if missing:
+            return {"violation": {"class": "wrap.no_wrapper", "site": "documented name", "msg": "no member function of the documented name: " + missing[0][-220:]}}
+        return {"violation": {"class": "wrap.compile", "site": "c++", "msg": "a C++11 program using the member-function wrappers does not compile: " + " | ".join(e[-220:] for e in errs[:3])}}
+    try:
+        p = subprocess.run([exe], stdout=subprocess.PIPE, stderr=subprocess.PIPE, text=True, timeout=60, errors="replace",
+                           env=dict(os.environ, ASAN_OPTIONS="detect_leaks=0", UBSAN_OPTIONS="print_stacktrace=0"))
+    except subprocess.TimeoutExpired:
+        return {"violation": {"class": "wrap.hang", "site": "driver", "msg": "the C++ program did not finish"}}
+    got = p.stdout.splitlines()
+    exp = expected_log_cpp(model, plan)
+    v = classify(exp, got)
+    finding = None
+    if v is not None:
+        leak = expected_log_cpp(model, plan, known_ctx_leak=True)
+        v2 = classify(leak, got)
+        if v2 is None:
+            finding = {"class": "wrap.release_count", "site": "C++ consuming wrapper keeps its context clone", "msg": v["msg"]}
+            v = None
+        else:
+            v = v2
+    if v is None and p.returncode != 0:
+        san = [l for l in p.stderr.splitlines() if "ERROR: AddressSanitizer" in l or "runtime error" in l]
+        v = {"class": "wrap.crash", "site": "driver", "msg": "the C++ program died with status %d%s" % (p.returncode, (": " + san[0][:200]) if san else "")}
+    return {"violation": v, "finding": finding, "log_lines": len(got), "slots": sum(1 for l in got if l.startswith("SLOT")), "log": p.stdout}
